@@ -1266,6 +1266,39 @@ pub fn is_type_parameter_used_in_type(
     type_parameters: &HashSet<syn::Ident>,
     ty: &syn::Type,
 ) -> bool {
+    let used_in_path = |path: &syn::Path| {
+        path.segments
+            .iter()
+            .any(|segment| match &segment.arguments {
+                syn::PathArguments::AngleBracketed(arguments) => {
+                    arguments.args.iter().any(|argument| match argument {
+                        syn::GenericArgument::Type(ty) => {
+                            is_type_parameter_used_in_type(type_parameters, ty)
+                        }
+                        syn::GenericArgument::AssocType(assoc) => {
+                            is_type_parameter_used_in_type(type_parameters, &assoc.ty)
+                        }
+                        syn::GenericArgument::Constraint(constraint) => {
+                            type_parameters.contains(&constraint.ident)
+                        }
+                        _ => false,
+                    })
+                }
+                syn::PathArguments::Parenthesized(arguments) => {
+                    arguments
+                        .inputs
+                        .iter()
+                        .any(|ty| is_type_parameter_used_in_type(type_parameters, ty))
+                        || matches!(
+                            &arguments.output,
+                            syn::ReturnType::Type(_, ty)
+                                if is_type_parameter_used_in_type(type_parameters, ty)
+                        )
+                }
+                syn::PathArguments::None => false,
+            })
+    };
+
     match ty {
         syn::Type::Path(ty) => {
             if let Some(qself) = &ty.qself {
@@ -1280,28 +1313,43 @@ pub fn is_type_parameter_used_in_type(
                 }
             }
 
-            ty.path.segments.iter().any(|segment| {
-                if let syn::PathArguments::AngleBracketed(arguments) =
-                    &segment.arguments
-                {
-                    arguments.args.iter().any(|argument| match argument {
-                        syn::GenericArgument::Type(ty) => {
-                            is_type_parameter_used_in_type(type_parameters, ty)
-                        }
-                        syn::GenericArgument::Constraint(constraint) => {
-                            type_parameters.contains(&constraint.ident)
-                        }
-                        _ => false,
-                    })
-                } else {
-                    false
-                }
-            })
+            used_in_path(&ty.path)
         }
 
         syn::Type::Reference(ty) => {
             is_type_parameter_used_in_type(type_parameters, &ty.elem)
         }
+
+        syn::Type::Array(syn::TypeArray { elem, .. })
+        | syn::Type::Slice(syn::TypeSlice { elem, .. })
+        | syn::Type::Group(syn::TypeGroup { elem, .. })
+        | syn::Type::Paren(syn::TypeParen { elem, .. })
+        | syn::Type::Ptr(syn::TypePtr { elem, .. }) => {
+            is_type_parameter_used_in_type(type_parameters, elem)
+        }
+
+        syn::Type::Tuple(ty) => ty
+            .elems
+            .iter()
+            .any(|ty| is_type_parameter_used_in_type(type_parameters, ty)),
+
+        syn::Type::BareFn(ty) => {
+            ty.inputs
+                .iter()
+                .any(|arg| is_type_parameter_used_in_type(type_parameters, &arg.ty))
+                || matches!(
+                    &ty.output,
+                    syn::ReturnType::Type(_, ty)
+                        if is_type_parameter_used_in_type(type_parameters, ty)
+                )
+        }
+
+        syn::Type::TraitObject(ty) => ty.bounds.iter().any(|bound| {
+            matches!(
+                bound,
+                syn::TypeParamBound::Trait(bound) if used_in_path(&bound.path)
+            )
+        }),
 
         _ => false,
     }
